@@ -127,7 +127,7 @@ var nullAllowed = map[string]bool{"format": true, "formatlist": true, "jsonencod
 
 func (Driver) Run(c *core.Ctx) {
 	fns := allFns()
-	perFn := int64(c.N(2000, 2400000))
+	perFn := int64(c.N(60000, 2400000))
 	nb := int64(c.NBatches)
 	per := (perFn + nb - 1) / nb // cases per function in this batch
 	for fi := range fns {
